@@ -769,7 +769,11 @@ fn random_case(rng: &mut Rng, processor_ok: bool) -> Value {
     }
     c["points"] = json!(pts);
     let nr = rng.below(3);
-    let mut rej: Vec<Value> = (0..nr).map(|_| rand_cert(rng)).collect();
+    let mut rej: Vec<Value> = (0..nr).map(|_| {
+        let mut c = rand_cert(rng);
+        if processor_ok && rng.chance(1, 2) { c["via"] = json!("cert"); }
+        c
+    }).collect();
     if !pool.is_empty() && rng.chance(1, 2) {
         // a block related to a published prefix
         let p = Pfx::of(&rng.pick(&pool)[0]);
@@ -1008,7 +1012,12 @@ fn gen_unsafe(rng: &mut Rng, tier: &str) -> Vec<(String, Value)> {
                 let mut c = base_input(pol);
                 c["points"] = json!([point(vec![roa(asn, vec![entry(*p, Value::Null)])])]);
                 c["rejected"] = json!([cert_of(v4, b.clone())]);
-                cases.push((format!("relation.{}", rel), c));
+                cases.push((format!("relation.{}", rel), c.clone()));
+                // the same blocks in a real CA certificate, rejected through PubPointProcessor::cancel
+                if pol == "reject" && (k % 8 < 3 || tier == "thorough") {
+                    c["rejected"][0]["via"] = json!("cert");
+                    cases.push((format!("relation_realcert.{}", rel), c));
+                }
             }
         }
     }
@@ -1046,7 +1055,11 @@ fn gen_unsafe(rng: &mut Rng, tier: &str) -> Vec<(String, Value)> {
             pt
         }).collect();
         c["points"] = json!(pts);
-        let mut rej: Vec<Value> = (0..r.range(1, 3)).map(|_| rand_cert(&mut r)).collect();
+        let mut rej: Vec<Value> = (0..r.range(1, 3)).map(|_| {
+            let mut c = rand_cert(&mut r);
+            if r.chance(1, 3) { c["via"] = json!("cert"); }
+            c
+        }).collect();
         for _ in 0..r.below(3) {
             if pool.is_empty() { break; }
             let p = Pfx::of(&r.pick(&pool)[0]);
